@@ -12,7 +12,9 @@
 (***************************************************************************)
 EXTENDS GseSender, TLC
 
-CONSTANTS Maxes        \* values offered to enable-with-max, e.g. {0, 1, 2, 3, 255}
+CONSTANTS Maxes,       \* values offered to enable-with-max, e.g. {0, 1, 2, 3, 255}
+          Export,      \* TRUE: record the inputs of each behaviour and print those of length Depth (S->I)
+          Depth
 
 A6 == [k |-> "six",   b |-> <<1, 2, 3, 4, 5, 6>>]
 B6 == [k |-> "six",   b |-> <<9, 9, 9, 9, 9, 9>>]
@@ -25,13 +27,21 @@ VARIABLES tx,       \* abstract sender state (en, max, run, prev)
           rl,       \* receiver's remembered label (a full label, Broadcast or NoLabel)
           nearest,  \* ghost: label carried by the nearest preceding start/complete packet of the frame
           last,     \* ghost: outcome of the last packet: [sent, delivered, got, want, subst, wl]
-          runWire   \* ghost: consecutive substituted packets since the last full-label packet / config call
-vars == <<tx, rl, nearest, last, runWire>>
+          runWire,  \* ghost: consecutive substituted packets since the last full-label packet / config call
+          hist      \* ghost (Export only): the inputs so far, as scenario tokens for `gse_harness labels --scn`
+vars == <<tx, rl, nearest, last, runWire, hist>>
+View == <<tx, rl, nearest, last, runWire>>
+Tok(a, b) == a \o ":" \o b
+LName(L) == IF L = A6 THEN "A6" ELSE IF L = B6 THEN "B6" ELSE IF L = A3 THEN "A3" ELSE IF L = B3 THEN "B3"
+            ELSE IF L.k = "bc" THEN "BC" ELSE "RU"
+Rec(tok) == hist' = IF Export THEN Append(hist, tok) ELSE hist
+Bounded == Export => Len(hist) <= Depth
+ExportInv == (Export /\ Len(hist) = Depth) => PrintT(<<"SCN", 0, hist>>)
 
 NoOutcome == [sent |-> FALSE, delivered |-> FALSE, got |-> NoLabel, want |-> NoLabel, subst |-> FALSE, wl |-> "none",
               afterClear |-> FALSE, enAtSend |-> TRUE, maxAtSend |-> 0, prevAtSend |-> NoLabel, passed |-> NoLabel]
 
-Init == tx = TxInit /\ rl = NoLabel /\ nearest = NoLabel /\ last = NoOutcome /\ runWire = 0
+Init == tx = TxInit /\ rl = NoLabel /\ nearest = NoLabel /\ last = NoOutcome /\ runWire = 0 /\ hist = <<>>
 
 \* what an (ideal but forgetful) receiver does with a start/complete packet
 \* whose wire label is wlab (a full label, Broadcast, or ReUseL)
@@ -41,6 +51,7 @@ RxDelivers(wlab) == wlab.k # "ru" \/ rl \in FullLabels
 \* a successful start/complete packet for passed label L; `sub` = the encapsulator substitutes
 Send(L, sub, starved) ==
   /\ sub => SubstAllowed(tx, L)                         \* C15 per-step clause
+  /\ Rec(Tok(IF starved THEN "starve" ELSE "send", LName(L)))
   /\ LET wlab == IF sub THEN ReUseL ELSE L
          deliv == ~starved /\ RxDelivers(wlab)
      IN /\ last' = [sent |-> TRUE, delivered |-> deliv, got |-> RxResolve(wlab), want |-> IntendedLabel(tx, L),
@@ -57,16 +68,17 @@ Send(L, sub, starved) ==
                    ELSE {wlab}
 
 \* a failing encap call: by failure atomicity (C09) nothing changes on either side
-SendFail == UNCHANGED <<tx, rl, nearest, runWire>> /\ last' = NoOutcome
+SendFail == UNCHANGED <<tx, rl, nearest, runWire>> /\ last' = NoOutcome /\ \E L \in Alphabet : Rec(Tok("fail", LName(L)))
 
 \* intermediate / end fragments, padding, garbage: no label effect on the sender;
 \* the receiver may keep or forget its remembered label
-OtherTraffic == /\ rl' \in {rl, NoLabel} /\ last' = NoOutcome /\ UNCHANGED <<tx, nearest, runWire>>
+OtherTraffic == /\ rl' \in {rl, NoLabel} /\ last' = NoOutcome /\ UNCHANGED <<tx, nearest, runWire>> /\ Rec("other:0")
 
 ResetBoth == /\ tx' = TxCfg(tx, "reset", 0) /\ rl' = NoLabel /\ nearest' = NoLabel
-             /\ last' = NoOutcome /\ UNCHANGED runWire
+             /\ last' = NoOutcome /\ UNCHANGED runWire /\ Rec("reset:0")
 
 Config(op, n) == /\ tx' = TxCfg(tx, op, n) /\ runWire' = 0 /\ last' = NoOutcome /\ UNCHANGED <<rl, nearest>>
+                 /\ Rec(Tok(op, ToString(n)))
 
 Next ==
   \/ \E L \in Alphabet, sub \in BOOLEAN, starved \in BOOLEAN : Send(L, sub, starved)
